@@ -26,6 +26,17 @@ instance : ToString Err := ⟨fun
   | .cond => "cond" | .type => "type" | .path => "path" | .op => "op"
   | .msgpack => "msgpack" | .nonstr => "nonstr"⟩
 
+/-- core has no `DecidableEq (Except ε α)`; closed witnesses are compared with `decide` -/
+instance instDecEqExcept {ε α : Type} [DecidableEq ε] [DecidableEq α] : DecidableEq (Except ε α) :=
+  fun x y =>
+    match x, y with
+    | .ok a, .ok b =>
+      if h : a = b then isTrue (by rw [h]) else isFalse (fun h' => h (Except.ok.inj h'))
+    | .error a, .error b =>
+      if h : a = b then isTrue (by rw [h]) else isFalse (fun h' => h (Except.error.inj h'))
+    | .ok _, .error _ => isFalse (fun h => by cases h)
+    | .error _, .ok _ => isFalse (fun h => by cases h)
+
 /-! ### big-endian fields -/
 
 def beNat : Bytes → Nat
